@@ -24,6 +24,10 @@ def belongs_to(prop):
 
 def run(ctx, prop=PROP):
     mon, totals = runner.run_sharded(drive_agg.work, ctx.tier)
+    broken = {ob: n for ob, n in mon.fail_counts.items() if contracts_agg.property_of(ob) == "checker"}
+    if broken:
+        first = [f for f in mon.failures if f.obligation in broken][:1]
+        raise core.CheckerBroken("self-check of the checker failed: %r %s" % (broken, first[0].what if first else ""))
     mine = [q for q in mon.outside if q.split(".")[-1] in contracts_agg.AGG_METHODS and mon.outside[q]]
     if mine:
         raise core.CheckerBroken("driver made calls outside the aggregates' precondition: %r" % {q: mon.outside[q] for q in mine})
@@ -47,6 +51,11 @@ EXPECT = {
        "xcube._set_strides/ensures-multipliers", "xcube._set_strides/ensures-mintype", "xcube.strided_dims/ensures-sum-equals-ravel",
        "xcube.strided_dims/ensures-cell-number-below-size"]
     + ["xfuncs.xfunc_%s.fill/ensures-per-bin-%s" % (a, c) for a in _AGGS for c in ("values", "valid-counts", "missing-counts")]
+    + ["ffuncs.ffunc_%s.get_initial_regions/%s" % (a, c) for a in _AGGS for c in ("ensures-regions-have-working-shape", "ensures-corner-values-total",
+                                                                                   "ensures-corner-valid-count-total", "ensures-corner-missing-count-total",
+                                                                                   "ensures-zero-outside-corner")]
+    + ["ffuncs.ffunc_%s.fill_func._fill/%s" % (a, c) for a in _AGGS for c in ("ensures-cell-holds-values-over-rowids", "ensures-cell-holds-valid-count",
+                                                                               "ensures-cell-holds-missing-count", "frame-other-cells-unchanged")]
     + ["%s.%sfunc_%s.__init__/ensures-validity" % (m, m[0], a) for m in ("ffuncs", "xfuncs") for a in _AGGS]
     + ["%s.%sfunc_%s.__init__/ensures-summables" % (m, m[0], a) for m in ("ffuncs", "xfuncs") for a in ("sum", "mean")]
     + ["%s.%sfunc_%s.__init__/ensures-countables" % (m, m[0], a) for m in ("ffuncs", "xfuncs") for a in ("count", "valid_count", "mean")],
